@@ -199,6 +199,38 @@ def run_table(case, ctx):
             X = X.astype(xkind)
             y = y + 0.25          # non-integer series: a cast through an integer dtype cannot go unnoticed
         cfg["exog_dtype"] = xkind
+        # memory layout of the inputs: a column of a C-ordered table, every other element of a record, a
+        # reversed view, a Fortran-ordered exogenous block - the values are the same, the strides are not
+        layout = ["contiguous", "contiguous", "column-of-table", "strided", "negative-stride", "fortran-exog"][
+            (n + 2 * past + 3 * delay2 + ncol + int(with_w)) % 6]
+        cfg["layout"] = layout
+        ctx.cls("layout=" + layout)
+
+        def relayout(a):
+            if a is None or layout == "contiguous":
+                return a
+            if a.ndim == 1:
+                if layout == "column-of-table":
+                    t = numpy.empty((len(a), 3), dtype=a.dtype)
+                    t[:] = -777
+                    t[:, 1] = a
+                    return t[:, 1]
+                if layout == "strided":
+                    t = numpy.full(2 * len(a), -777, dtype=a.dtype)
+                    t[::2] = a
+                    return t[::2]
+                if layout == "negative-stride":
+                    return a[::-1].copy()[::-1]
+                return a
+            if layout == "fortran-exog":
+                return numpy.asfortranarray(a)
+            if layout == "negative-stride":
+                return a[::-1].copy()[::-1]
+            t = numpy.full((a.shape[0], 2 * a.shape[1] + 1), -777, dtype=a.dtype)
+            t[:, 1::2] = a
+            return t[:, 1::2]
+
+        X, y, w = relayout(X), relayout(y), relayout(w)
         keep = [None if a is None else a.copy() for a in (X, y, w)]
         m = make_model((past + delay2 + ncol + n) % 4, past, delay2)
         try:
